@@ -250,6 +250,12 @@ void ProcessCMD(
         DecodeLine(pCMDRecs, CMDRecCnt, EnvLine, ErrProc);
     }
 
+    /* Unprocessed[] holds MAXPARAM + 1 flags */
+
+    if (argc > MAXPARAM) {
+        ErrProc(False, argv[MAXPARAM]);
+    }
+
     for (z = 0; z < argc; z++) {
         Unprocessed[z] = (z != 0);
     }
